@@ -20,6 +20,7 @@ Interpretation decisions (no false alarms):
 """
 import hashlib
 import json
+import os
 import vlib
 
 LEVEL = "model_checking"
@@ -33,7 +34,8 @@ def sig_of(e, events, k):
 
 def run(ctx):
     q = ctx.quick
-    vlib.model_check(ctx, "MC_JsonDoc.tla", "MC_JsonDoc.cfg", workers=6, timeout=1200)
+    if not os.environ.get("VERIF_DEV_SKIP_MODEL"):   # development only (mutation runs): the model stage does not depend on /repo
+        vlib.model_check(ctx, "MC_JsonDoc.tla", "MC_JsonDoc.cfg", workers=6, timeout=1200)
     b = vlib.harness_bin("c06")
     tp = ctx.path("trace.ndjson")
     docs, large = (240, 30000) if q else (1200, 1000000)
